@@ -93,6 +93,22 @@ def run(ctx, info, rng=None, *_):
         names.append(name + ":forward")
         pairs.append({"running": render(c), "new": base_text})
         names.append(name + ":backward")
+    # rule lists that hold the same rule twice (spelled differently) in the RUNNING file, one of the two replaced by a new rule in the new
+    # file: same length, every old rule still present - and a different policy
+    eg = BASE["egress"]
+    dup_pairs = [
+        ("egress-deny-duplicate-replaced", eg + ['deny "198.51.100.7"', 'deny "198.51.100.7/32"'], eg + ['deny "198.51.100.7"', 'deny "127.0.0.0/8"']),
+        ("egress-deny-same-rule-twice-replaced", eg + ['deny "evil.example"', 'deny "evil.example"'], eg + ['deny "evil.example"', 'deny "worse.example"']),
+        ("egress-allow-duplicate-replaced", eg + ['allow "T.example"', 'allow "t.example."'], eg + ['allow "t.example"', 'allow "u.example"']),
+        ("egress-deny-mapped-duplicate-replaced", eg + ['deny "10.0.0.0/8"', 'deny "::ffff:10.0.0.0/104"'], eg + ['deny "10.0.0.0/8"', 'deny "192.168.0.0/16"']),
+    ]
+    for name, run_eg, new_eg in dup_pairs:
+        a, b = copy.deepcopy(BASE), copy.deepcopy(BASE)
+        a["egress"], b["egress"] = run_eg, new_eg
+        pairs.append({"running": render(a), "new": render(b)})
+        names.append(name + ":forward")
+        pairs.append({"running": render(b), "new": render(a)})
+        names.append(name + ":backward")
     rc, out, err = C.harness_run(info["hbin"], ["restart-class"], {"pairs": pairs}, timeout=120)
     if rc != 0:
         raise RuntimeError("restart-class failed: " + err[-1500:])
